@@ -31,4 +31,17 @@ def F10_not_K(S, args, me):
     return EX([INT], lambda j: And(1 <= j, j <= 999, Not(AN.U(S, a)(dec(j)))))
 
 
-WITNESS = {"F1": F1_not_K, "F8": F8_not_K, "F10": F10_not_K}
+def F2_not_K(S, args, me):
+    """the mailbox id named by an open / close is not the id of another app's mailbox"""
+    from . import websocket as W
+    from pvc.contract import Ctx
+    from pvc.values import VZ
+    msg = args.get("payload") or args.get("msg")
+    app = S.heap["WebSocketServer._app"][me]
+    a = S.heap["AppNamespace._app_id"][app]
+    sub = Ctx(S, S, {"msg": msg, "server_rx": VZ(RealVal(0), "real")}, me, "WebSocketServer")
+    return And(Implies(msg.has("mailbox"), Not(AN.foreign_id(S, a, msg.val("mailbox").t))),
+               Not(AN.foreign_id(S, a, W.close_target(sub))))
+
+
+WITNESS = {"F2": F2_not_K, "F1": F1_not_K, "F8": F8_not_K, "F10": F10_not_K}
